@@ -6,7 +6,7 @@
    Prop selects which step predicates are asserted, so that a rejection is attributed to
    one property:  C01 C02 C03 C04 C12 C13, or ALL.
    Deviations (named in DESIGN 3.4) are constants, FALSE in every registered check. *)
-EXTENDS VWorkerOps, Json, IOUtils, TLCExt
+EXTENDS VDictOps, Json, IOUtils, TLCExt
 CONSTANTS Prop, DevAstralNul, DevStuck
 
 Rec == ndJsonDeserialize(IOEnv.TRACE)
@@ -41,7 +41,7 @@ Densify(d) == IF "bg" \in DOMAIN d
               ELSE d
 
 Session == /\ Is("session")
-           /\ dict' = TLCEval(Densify(E.D)) /\ opts' = E.O
+           /\ dict' = TLCEval(WithIdentity(Densify(E.D))) /\ opts' = E.O
            /\ ws' = [w \in 1..MaxW |-> W0] /\ cnt' = [w \in 1..MaxW |-> C0] /\ memo' = {}
 
 Reset == /\ Is("reset")
